@@ -42,8 +42,8 @@ expires); if the task is still not killed the engine thread is blocked for ever 
 `expired`: a kill delay is configured, all producers have finished and the delay has elapsed.
 An exception that escapes from the real code while the harness drives it is an oracle failure of the case
 (`real-code-raises-<where>-<Exception>`), not a harness crash.
-Model: lean/St4sd/Model/Repeat.lean + RepeatSub.lean via drv-c13 (repaired behaviour: guardNone +
-killOnSuicidePoll).  Theorems: lean/St4sd/Props/C13.lean.  Witnesses: lean/St4sd/Witness/C13.lean.
+Model: lean/St4sd/Model/Repeat.lean + RepeatSub.lean + RepeatDir.lean via drv-c13 (repaired behaviour: guardNone +
+killOnSuicidePoll + killAfterLaunch).  Theorems: lean/St4sd/Props/C13.lean.  Witnesses: lean/St4sd/Witness/C13.lean.
 """
 from __future__ import annotations
 
@@ -1068,7 +1068,9 @@ def oracle(case, out):
     # 3'. "... or the configured kill delay expires": a kill delay is configured, all producers have finished, the time
     #    of the delay has passed (the harness's own record; it drove every pending timer) and the engine thread still
     #    waits for a task that nobody killed: nothing will ever stop the observer
-    if out.get("hung") and out.get("expired"):
+    #    (an engine that was cancelled from outside before is outside the clause: `kill()` lets the current task finish,
+    #    a never-ending one never does - "unless it is cancelled from outside")
+    if out.get("hung") and out.get("expired") and out["cause"] != "external":
         fails.append(("kill-delay-expired-task-never-killed",
                       {"launches": len(out["execs"]), "tasks_still_running": out.get("tasks_alive"),
                        "engine_alive": out["final"]["alive"], "engine_cancelled": out["final"]["cancel"],
@@ -1474,6 +1476,12 @@ CORPUS += [
     # notification before run(), short tasks that fail, the delay expires between two polls
     {"cfg": {"retries": 5, "dieAfter": True, "prods": P1N, "pre": [0]}, "pre": ["fin"],
      "iters": [{"outcome": "fail"}, {"outcome": "fail", "s4": ["die"]}, {"outcome": "fail"}, {}, {}]},
+    # the delay expires between the `_suicide` check of a poll and its launch, the task launched never ends by itself
+    # (with an earlier task; without one): it is killed right after the launch (/repo 2d673a1)
+    {"cfg": {"retries": 3, "dieAfter": True, "prods": P1N, "pre": [0]},
+     "iters": [{}, {"gap": ["fin"], "s2": ["die"], "outcome": "hang"}, {}, {}]},
+    {"cfg": {"retries": 3, "dieAfter": True, "prods": P1N, "pre": [0]}, "pre": ["fin"],
+     "iters": [{"s1": ["die"], "outcome": "hang"}, {}, {}]},
     # a never-ending task, no kill delay, the producers never finish: nothing to say
     {"cfg": {"retries": 1, "prods": P1, "pre": []}, "iters": [{"s0": ["out:0"], "outcome": "hang"}, {}, {}]},
     # real producer Job (does not repeat) staged in before run() with data/params.txt:copy, writes its first own file
@@ -1562,24 +1570,8 @@ def c13_output_predates_run(what, case, detail):
     return not any(e.startswith("out:") and int(e[4:]) in ids for _s, e in events_in_order(case))
 
 
-def c13_kill_delay_expires_before_launch(what, case, detail):
-    """the kill delay expires (and the engine notices: its expiry flag is set) between the `_suicide` check at the
-    start of a poll and the launch of THAT poll (slots s1 / s2 of the poll that launches the never-ending task which
-    is then never killed): exactly the histories excluded by hypothesis `hw` of kill_delay_expiry_stops_partial"""
-    if what != "kill-delay-expired-task-never-killed" or not isinstance(detail, dict):
-        return False
-    if not detail.get("engine_noticed_the_expiry"):
-        return False
-    k = detail.get("poll")
-    its = normalise(case)["iters"]
-    if not isinstance(k, int) or not (0 <= k < len(its)) or its[k].get("outcome") != "hang":
-        return False
-    return any("die" in its[k].get(sl, []) for sl in ("s1", "s2"))
-
-
 CLASSIFIERS = {"c13_zero_retries_race": c13_zero_retries_race,
-               "c13_output_predates_run": c13_output_predates_run,
-               "c13_kill_delay_expires_before_launch": c13_kill_delay_expires_before_launch}
+               "c13_output_predates_run": c13_output_predates_run}
 
 
 # ----------------------------------------------------------------------------------------
@@ -1587,7 +1579,7 @@ CLASSIFIERS = {"c13_zero_retries_race": c13_zero_retries_race,
 def model_cfg(case):
     cfg = case["cfg"]
     return {"retries": DEFAULT_RETRIES if cfg.get("retries") is None else cfg["retries"],
-            "guardNone": True, "killOnSuicidePoll": True, "dieAfter": bool(cfg.get("dieAfter")),
+            "guardNone": True, "killOnSuicidePoll": True, "killAfterLaunch": True, "dieAfter": bool(cfg.get("dieAfter")),
             "prods": prods_of(case), "pre": list(cfg.get("pre", []))}
 
 
